@@ -285,6 +285,9 @@ def store(
 
     arrays = []
     for s, t, r in zip(sources, targets, regions_list):
+        # Every block is written to the target slice cut for it from the chunks
+        # advertised here, so pin that layout through optimization.
+        s = s.freeze_chunks()
         slices = ArraySliceDep(s.chunks)
         arrays.append(
             map_blocks(
